@@ -877,6 +877,244 @@ theorem trunc_exact_modF2S (h2 : F2SSpec) {x : TwoFloat} (hv : x.Valid) (hw : x.
       by_contra hc; have := F.pos.2 (by omega); omega
     rw [truncV_of_nonpos this]; exact ceil_exact_modF2S h2 hv hw
 
+
+theorem half_iff (z : ℤ) : 2 * |fractV z| = U ↔ 2 * (z - floorV z) = U := by
+  have h1 := floorV_le z; have h2 := lt_floorV_add z; have hU := U_pos
+  unfold fractV; rw [truncV_nf, ceilV_nf]
+  split_ifs with a b
+  · rw [abs_of_nonneg (by omega)]
+  · rw [abs_of_nonneg (by omega)]
+  · rw [abs_of_neg (by omega)]; omega
+
+theorem sign_pos_iff {a : F64} (ha : a.is_finite = true) (h0 : a.toInt ≠ 0) :
+    a.is_sign_positive = true ↔ 0 < a.toInt := by
+  have := is_sign_negative_iff_toInt ha h0
+  unfold F64.is_sign_positive
+  rw [Bool.not_eq_true', ← Bool.not_eq_true, this]; omega
+
+theorem roundV_between (z : ℤ) : floorV z ≤ roundV z ∧ roundV z ≤ ceilV z := by
+  have hU := U_pos
+  have h1 := floorV_le z
+  rw [roundV_nf, ceilV_nf]; split_ifs <;> omega
+
+theorem round_exact_modF2S (h2 : F2SSpec) {x : TwoFloat} (hv : x.Valid) (hw : x.WF) :
+    (TwoFloat.round x).V = roundV x.V ∧ (TwoFloat.round x).Valid := by
+  obtain ⟨hi, lo⟩ := x
+  have F : Facts hi lo := facts hv hw
+  show (TwoFloat.round ⟨hi, lo⟩).V = roundV (hi.toInt + lo.toInt) ∧ _
+  obtain ⟨e, hd, hl⟩ := F.ulp
+  unfold TwoFloat.round TwoFloat.lo_m TwoFloat.is_sign_positive
+  simp only []
+  have hU := U_pos
+  by_cases c1 : U ∣ lo.toInt
+  · rw [if_pos ((modf_eqz_iff F.fl).2 c1)]
+    by_cases h0 : lo.toInt = 0
+    · have := pair_zero_ok (c := F64.round hi) (l := lo) (by rw [is_finite_round]; exact F.fh)
+        (WF_round F.wh) F.fl h0
+      rw [toInt_round] at this; rw [h0, add_zero]; exact this
+    · have hH := hi_int_of_lo_int hd hl c1 h0
+      constructor
+      · show (F64.round hi).toInt + lo.toInt = _
+        rw [toInt_round, roundV_of_dvd hH, roundV_of_dvd (dvd_add hH c1)]
+      · apply valid_of_rnI (by rw [is_finite_round]; exact F.fh) F.fl (WF_round F.wh)
+        rw [toInt_round, roundV_of_dvd hH]; exact F.rn
+  · rw [if_neg (mt (modf_eqz_iff F.fl).1 c1)]
+    have f1 := floorV_le lo.toInt
+    have f2 := lt_floorV_add lo.toInt
+    have hne : lo.toInt ≠ floorV lo.toInt := fun h => c1 (floorV_eq_self_iff.1 h)
+    have hL0 : lo.toInt ≠ 0 := fun h => c1 (h ▸ dvd_zero U)
+    have hH0 : hi.toInt ≠ 0 := fun h => hL0 (F.zero h)
+    have hpos := F.pos
+    have hneg := F.neg
+    by_cases c2 : U ∣ hi.toInt
+    · rw [if_pos ((modf_eqz_iff F.fh).2 c2)]
+      have hf := floorV_add_of_dvd (z := lo.toInt) c2
+      by_cases c3 : 2 * |fractV lo.toInt| = U
+      · rw [if_pos ((abs_modf_eq_half_iff F.fl).2 c3)]
+        have c3' := (half_iff _).1 c3
+        by_cases hs : hi.is_sign_positive = true
+        · rw [if_pos hs]
+          have hb := b2_bounds F c2 c1 (c := ceilV lo.toInt)
+            (le_trans (floorV_le _) (le_ceilV _)) le_rfl
+          have := h2 hi (F64.ceil lo) F.fh (by rw [is_finite_ceil]; exact F.fl) F.wh (WF_ceil F.wl)
+            (by rw [toInt_ceil]; exact hb.1) (by rw [toInt_ceil]; exact hb.2)
+          rw [toInt_ceil] at this
+          have hs' := sign_pos_nonneg hs
+          have : roundV (hi.toInt + lo.toInt) = hi.toInt + ceilV lo.toInt := by
+            rw [roundV_nf, hf, ceilV_nf]; split_ifs <;> omega
+          rw [this]; assumption
+        · rw [if_neg hs]
+          have hb := b2_bounds F c2 c1 (c := floorV lo.toInt) le_rfl
+            (le_trans (floorV_le _) (le_ceilV _))
+          have := h2 hi (F64.floor lo) F.fh (by rw [is_finite_floor]; exact F.fl) F.wh (WF_floor F.wl)
+            (by rw [toInt_floor]; exact hb.1) (by rw [toInt_floor]; exact hb.2)
+          rw [toInt_floor] at this
+          have hs' := sign_neg_nonpos hs
+          have : roundV (hi.toInt + lo.toInt) = hi.toInt + floorV lo.toInt := by
+            rw [roundV_nf, hf]; split_ifs <;> omega
+          rw [this]; assumption
+      · rw [if_neg (mt (abs_modf_eq_half_iff F.fl).1 c3)]
+        have c3' := mt (half_iff _).2 c3
+        have hbt := roundV_between lo.toInt
+        have hb := b2_bounds F c2 c1 (c := roundV lo.toInt) hbt.1 hbt.2
+        have := h2 hi (F64.round lo) F.fh (by rw [is_finite_round]; exact F.fl) F.wh (WF_round F.wl)
+          (by rw [toInt_round]; exact hb.1) (by rw [toInt_round]; exact hb.2)
+        rw [toInt_round] at this
+        have : roundV (hi.toInt + lo.toInt) = hi.toInt + roundV lo.toInt := by
+          rw [roundV_nf, roundV_nf lo.toInt, hf]; split_ifs <;> omega
+        rw [this]; assumption
+    · rw [if_neg (mt (modf_eqz_iff F.fh).1 c2)]
+      obtain ⟨hp, g1, g2, g3⟩ := frac_gaps hd c2
+      obtain ⟨l1, l2⟩ := two_abs_le hl
+      have hf : floorV (hi.toInt + lo.toInt) = floorV hi.toInt :=
+        floorV_eq_of (floorV_dvd hi.toInt) (by omega) (by omega)
+      by_cases c3 : 2 * |fractV hi.toInt| = U
+      · rw [if_pos ((abs_modf_eq_half_iff F.fh).2 c3)]
+        have c3' := (half_iff _).1 c3
+        have s1 := sign_pos_iff F.fh hH0
+        have s2 := sign_pos_iff F.fl hL0
+        by_cases hs : (hi.is_sign_positive ==. lo.is_sign_positive) = true
+        · rw [if_pos hs]
+          rw [bool_req, beq_iff_eq] at hs
+          have hsame : 0 < hi.toInt ↔ 0 < lo.toInt := by rw [← s1, ← s2, hs]
+          have := from_ok (c := F64.round hi) (by rw [is_finite_round]; exact F.fh) (WF_round F.wh)
+          rw [toInt_round] at this
+          have : roundV (hi.toInt + lo.toInt) = roundV hi.toInt := by
+            rw [roundV_nf, roundV_nf hi.toInt, hf]; split_ifs <;> omega
+          rw [this]; assumption
+        · rw [if_neg hs]
+          rw [bool_req, beq_iff_eq] at hs
+          have hdiff : ¬ (0 < hi.toInt ↔ 0 < lo.toInt) := by
+            rw [← s1, ← s2]; intro h; exact hs (Bool.eq_iff_iff.2 h)
+          have := from_ok (c := F64.trunc hi) (by rw [is_finite_trunc]; exact F.fh) (WF_trunc F.wh)
+          rw [toInt_trunc] at this
+          have : roundV (hi.toInt + lo.toInt) = truncV hi.toInt := by
+            rw [roundV_nf, truncV_nf, ceilV_nf, hf]; split_ifs <;> omega
+          rw [this]; assumption
+      · rw [if_neg (mt (abs_modf_eq_half_iff F.fh).1 c3)]
+        have c3' := mt (half_iff _).2 c3
+        have := from_ok (c := F64.round hi) (by rw [is_finite_round]; exact F.fh) (WF_round F.wh)
+        rw [toInt_round] at this
+        have : roundV (hi.toInt + lo.toInt) = roundV hi.toInt := by
+          rw [roundV_nf, roundV_nf hi.toInt, hf]; split_ifs <;> omega
+        rw [this]; assumption
+
+
+theorem WF_one (s : Bool) : (fin s F64.unit).WF := by
+  refine ⟨by rw [unit_eq]; exact rep_two_pow 1074, ?_⟩
+  have := two_U_le_maxFin; have hU := U_pos
+  have : ((F64.unit : ℕ) : ℤ) ≤ (maxFin : ℤ) := by rw [cast_unit]; omega
+  exact_mod_cast this
+
+theorem toInt_one : (fin false F64.unit).toInt = U := rfl
+theorem toInt_neg_one : (fin true F64.unit).toInt = -U := rfl
+
+theorem abs_fractV_lt (z : ℤ) : |fractV z| < U := by
+  have h1 := floorV_le z; have h2 := lt_floorV_add z; have hU := U_pos
+  unfold fractV; rw [truncV_nf, ceilV_nf]
+  split_ifs <;> rw [abs_lt] <;> constructor <;> omega
+
+theorem fract_exact_modF2S (h2 : F2SSpec) {x : TwoFloat} (hv : x.Valid) (hw : x.WF) :
+    (TwoFloat.fract x).V = fractV x.V ∧ (TwoFloat.fract x).Valid := by
+  obtain ⟨hi, lo⟩ := x
+  have F : Facts hi lo := facts hv hw
+  show (TwoFloat.fract ⟨hi, lo⟩).V = fractV (hi.toInt + lo.toInt) ∧ _
+  obtain ⟨e, hd, hl⟩ := F.ulp
+  unfold TwoFloat.fract
+  simp only []
+  have hU := U_pos
+  have hmax := two_U_le_maxFin
+  by_cases c1 : U ∣ lo.toInt
+  · rw [if_pos ((modf_eqz_iff F.fl).2 c1)]
+    have := from_ok (c := (F64.modf hi).1) (is_finite_modf_fst F.fh) (WF_modf_fst F.wh)
+    rw [toInt_modf_fst] at this
+    have : fractV (hi.toInt + lo.toInt) = fractV hi.toInt := by
+      by_cases h0 : lo.toInt = 0
+      · rw [h0, add_zero]
+      · have hH := hi_int_of_lo_int hd hl c1 h0
+        rw [fractV_of_dvd hH, fractV_of_dvd (dvd_add hH c1)]
+    rw [this]; assumption
+  · rw [if_neg (mt (modf_eqz_iff F.fl).1 c1)]
+    have f1 := floorV_le lo.toInt
+    have f2 := lt_floorV_add lo.toInt
+    have hne : lo.toInt ≠ floorV lo.toInt := fun h => c1 (floorV_eq_self_iff.1 h)
+    have hL0 : lo.toInt ≠ 0 := fun h => c1 (h ▸ dvd_zero U)
+    have hH0 : hi.toInt ≠ 0 := fun h => hL0 (F.zero h)
+    have hpos := F.pos
+    have hneg := F.neg
+    have hfl := abs_fractV_lt lo.toInt
+    by_cases c2 : U ∣ hi.toInt
+    · rw [if_pos ((modf_eqz_iff F.fh).2 c2)]
+      have hf := floorV_add_of_dvd (z := lo.toInt) c2
+      have r1 := rge_zero_iff F.fh
+      have r2 := rge_zero_iff F.fl
+      generalize (hi >=. f64lit 0x0000000000000000) = b1 at r1
+      generalize (lo >=. f64lit 0x0000000000000000) = b2 at r2
+      have hfrom := from_ok (c := (F64.modf lo).1) (is_finite_modf_fst F.fl) (WF_modf_fst F.wl)
+      rw [toInt_modf_fst] at hfrom
+      have hsame : (0 < hi.toInt ↔ 0 < lo.toInt) →
+          fractV (hi.toInt + lo.toInt) = fractV lo.toInt := by
+        intro h
+        unfold fractV; rw [truncV_nf, truncV_nf lo.toInt, ceilV_nf, ceilV_nf lo.toInt, hf]
+        split_ifs <;> omega
+      cases b1 <;> cases b2 <;> simp only []
+      · rw [hsame (by simp at r1 r2; omega)]; exact hfrom
+      · have := h2 (F64.neg (f64lit 0x3ff0000000000000)) (F64.modf lo).1
+          (by rw [is_finite_neg, f64lit_one]; rfl) (is_finite_modf_fst F.fl)
+          (by rw [f64lit_one]; exact WF_one true) (WF_modf_fst F.wl)
+          (by rw [f64lit_one, toInt_modf_fst]; show _ ≤ |(-U : ℤ)|; rw [abs_neg, abs_of_pos hU]; omega)
+          (by
+            rw [f64lit_one, toInt_modf_fst]; apply no_ovf
+            show |(-U : ℤ) + _| ≤ _
+            have := abs_add_le (-U) (fractV lo.toInt)
+            rw [abs_neg, abs_of_pos hU] at this; omega)
+        rw [f64lit_one, toInt_modf_fst] at this
+        have hv : fractV (hi.toInt + lo.toInt) = (fin true F64.unit).toInt + fractV lo.toInt := by
+          rw [toInt_neg_one]
+          simp at r1 r2
+          unfold fractV; rw [truncV_nf, truncV_nf lo.toInt, ceilV_nf, ceilV_nf lo.toInt, hf]
+          split_ifs <;> omega
+        rw [hv]; exact this
+      · have := h2 (f64lit 0x3ff0000000000000) (F64.modf lo).1
+          (by rw [f64lit_one]; rfl) (is_finite_modf_fst F.fl)
+          (by rw [f64lit_one]; exact WF_one false) (WF_modf_fst F.wl)
+          (by rw [f64lit_one, toInt_modf_fst, toInt_one, abs_of_pos hU]; omega)
+          (by
+            rw [f64lit_one, toInt_modf_fst, toInt_one]; apply no_ovf
+            have := abs_add_le U (fractV lo.toInt)
+            rw [abs_of_pos hU] at this; omega)
+        rw [f64lit_one, toInt_modf_fst, toInt_one] at this
+        have hv : fractV (hi.toInt + lo.toInt) = U + fractV lo.toInt := by
+          simp at r1 r2
+          unfold fractV; rw [truncV_nf, truncV_nf lo.toInt, ceilV_nf, ceilV_nf lo.toInt, hf]
+          split_ifs <;> omega
+        rw [hv]; exact this
+      · rw [hsame (by simp at r1 r2; omega)]; exact hfrom
+    · rw [if_neg (mt (modf_eqz_iff F.fh).1 c2)]
+      obtain ⟨hp, g1, g2, -⟩ := frac_gaps hd c2
+      obtain ⟨l1, l2⟩ := two_abs_le hl
+      have hf : floorV (hi.toInt + lo.toInt) = floorV hi.toInt :=
+        floorV_eq_of (floorV_dvd hi.toInt) (by omega) (by omega)
+      have hfh := abs_fractV_lt hi.toInt
+      have hfv : fractV hi.toInt = hi.toInt - (if 0 ≤ hi.toInt then floorV hi.toInt
+          else floorV hi.toInt + U) := by
+        unfold fractV; rw [truncV_nf, ceilV_nf]; split_ifs <;> omega
+      have hab : |lo.toInt| ≤ |fractV hi.toInt| := by
+        rw [hfv]; split_ifs
+        · rw [abs_of_nonneg (a := hi.toInt - _) (by omega)]; exact abs_le.2 ⟨by omega, by omega⟩
+        · rw [abs_of_nonpos (a := hi.toInt - _) (by omega)]; exact abs_le.2 ⟨by omega, by omega⟩
+      have := h2 (F64.modf hi).1 lo (is_finite_modf_fst F.fh) F.fl (WF_modf_fst F.wh) F.wl
+        (by rw [toInt_modf_fst]; exact hab)
+        (by
+          rw [toInt_modf_fst]; apply no_ovf
+          have := abs_add_le (fractV hi.toInt) lo.toInt
+          omega)
+      rw [toInt_modf_fst] at this
+      have hv : fractV (hi.toInt + lo.toInt) = fractV hi.toInt + lo.toInt := by
+        rw [hfv]; unfold fractV; rw [truncV_nf, ceilV_nf, hf]
+        split_ifs <;> omega
+      rw [hv]; exact this
+
 end branches
 
 end C08
